@@ -9,4 +9,5 @@ for ws in e1_pull e1_sink e1_push e2_wakesim; do
 done
 (cd e4_hydroprod && cargo build --release --offline -p e4_hydroprod)
 ./e5_hydrosim/warm.sh
+(cd e7_seedsim && ./build_shim.sh && cargo build --release --offline)
 echo "setup ok"
